@@ -1,10 +1,12 @@
 import Driver.Common
 import Driver.UpcastDrv
+import Driver.BusDrv
 open Driver
 
 def runDomain (dom : String) (lines : Array String) : Array String :=
   match dom with
   | "upcast" => UpcastDrv.runCase lines
+  | "bus" => BusDrv.runCase lines
   | _ => #["unknown-domain " ++ dom]
 
 def main (args : List String) : IO UInt32 := do
